@@ -8,6 +8,14 @@ and the counter `(dec e n).n` (`anf_eq_dec`).  All semantic reasoning is done on
 namespace Goml.Anf
 open Goml
 
+/-- the guard of the `&&` / `||` arm accepts exactly the operands that have nothing to evaluate
+    (checked against the table regenerated from `anf.rs`, and `anf_imm`'s own notion of immediate) -/
+theorem trivialRhs_eq_isAtom (e : Expr) : trivialRhs e = isAtom e := by
+  cases e <;> simp only [trivialRhs, liftKind, isAtom] <;> decide
+
+theorem immKinds_is_isAtom (e : Expr) : Gen.immKinds.contains (liftKind e) = isAtom e := by
+  cases e <;> simp only [liftKind, isAtom] <;> decide
+
 abbrev Binds := List (String × Expr)
 
 def wrap : Binds → Expr → Expr
@@ -71,7 +79,7 @@ def dec (e : Expr) (n : Nat) : Dec :=
   | .cget c idx ty e => let r := decImmK e (dec e) n; ⟨r.L, .cget c idx ty r.c, r.n⟩
   | .un op ty e => let r := decImmK e (dec e) n; ⟨r.L, .un op ty r.c, r.n⟩
   | .bin op ty l r =>
-    if (op == .and || op == .or) && !isAtom r then
+    if (op == .and || op == .or) && !trivialRhs r then
       let rl := decImmK l (dec l) n
       if op == .and then
         let rt := anf r rl.n ret
